@@ -132,7 +132,7 @@ int cmd_gstrf(const case_t *c)
     jo_begin(c);
     jo_int("n", n); jo_int("nnz", G.nnz); jo_int("np", nprocs); jo_int("info", info);
     jo_dbl("secs", t1 - t0); jo_int("perturbs", mon_perturbs());
-    if ((tasks0 != 1 && !HX_TSAN) || tasks1 != tasks0) jo_fail("C04|threads-left", "thread count %d before and %d after the factorization", tasks0, tasks1);
+    if ((tasks0 != 1 + hx_extra_threads && !HX_TSAN) || tasks1 != tasks0) jo_fail("C04|threads-left", "thread count %d before and %d after the factorization", tasks0, tasks1);
     if (fds1 != fds0) jo_fail("C17|fd-leak", "open descriptors %d before, %d after", fds0, fds1);
     if (csc_hash(&G) != h0) jo_fail("C01|A-modified", "the input matrix changed during factorization");
 
@@ -175,9 +175,33 @@ int cmd_gstrf(const case_t *c)
         jo_fail("C14|unexpected-info", "factorization returned info=%ld (n=%ld)", (long)info, (long)n);
     }
     dump_on_fail(c, ev, nev);
-    jo_end();
     free(ev);
     if (info >= 0 && info <= n) { Destroy_SuperNode_SCP(&L); Destroy_CompCol_NCP(&U); }
+    /* reps > 1: the same factorization again and again (other schedules), each one analysed by the event checker */
+    long reps = cint(c, "reps", 1), reps_done = 1, takes = 0;
+    for (long rep = 1; rep < reps && info == 0 && !jo_nfail(); ++rep) {
+        SuperMatrix L2, U2; int_t info2 = 0;
+        memset(&L2, 0, sizeof L2); memset(&U2, 0, sizeof U2);
+        mon_reset();
+        mon_enable(1, (uint64_t)cint(c, "pert", 0) + (uint64_t)rep, (int)cint(c, "pmode", 0), (int)cint(c, "plevel", 1), nprocs);
+        GSTRF(&opt, &AC, perm_r, &L2, &U2, &Gstat, &info2);
+        mon_disable();
+        ev_t *ev2 = NULL; size_t nev2 = mon_collect(&ev2);
+        evstats_t st2; memset(&st2, 0, sizeof st2);
+        if (info2 != 0) jo_fail("C01|info-nonzero", "repetition %ld of the same factorization returned info=%ld", rep, (long)info2);
+        else {
+            int_t *ff = final_first(&L2, n);
+            mon_analyze(ev2, nev2, n, opt.etree, ff, nprocs, &st2);
+            free(ff);
+            takes += st2.pipelined_takes + st2.dad_takes;
+        }
+        if (jo_nfail()) dump_on_fail(c, ev2, nev2);
+        free(ev2);
+        if (info2 >= 0 && info2 <= n) { Destroy_SuperNode_SCP(&L2); Destroy_CompCol_NCP(&U2); }
+        ++reps_done;
+    }
+    if (reps > 1) { jo_int("reps_done", reps_done); jo_int("rep_pipe_takes", takes); }
+    jo_end();
     pxgstrf_finalize(&opt, &AC);
     StatFree(&Gstat);
     Destroy_SuperMatrix_Store(&A);
@@ -230,7 +254,7 @@ int cmd_gssv(const case_t *c)
     jo_begin(c);
     jo_int("n", n); jo_int("nnz", G.nnz); jo_int("np", nprocs); jo_int("info", info); jo_int("nrhs", nrhs);
     jo_dbl("secs", t1 - t0); jo_int("perturbs", mon_perturbs());
-    if ((tasks0 != 1 && !HX_TSAN) || tasks1 != tasks0) jo_fail("C04|threads-left", "thread count %d before and %d after the driver call", tasks0, tasks1);
+    if ((tasks0 != 1 + hx_extra_threads && !HX_TSAN) || tasks1 != tasks0) jo_fail("C04|threads-left", "thread count %d before and %d after the driver call", tasks0, tasks1);
     if (fds1 != fds0) jo_fail("C17|fd-leak", "open descriptors %d before, %d after", fds0, fds1);
     if (csc_hash(&G) != h0) jo_fail("C01|A-modified", "the input matrix A changed during the driver call");
     if (A.Stype != (nr ? SLU_NR : SLU_NC) || A.nrow != n || A.ncol != n || ((NCformat *)A.Store)->nnz != G.nnz ||
@@ -269,7 +293,11 @@ int cmd_gssv(const case_t *c)
         if (!expect_sing) jo_fail("C01|info-nonzero", "simple driver returned info=%ld for a nonsingular matrix", (long)info);
         if (memcmp(b, b0, (size_t)ldb * nrhs * sizeof(elem_t))) jo_fail("C06|B-changed", "info=%ld > 0 but B was modified", (long)info);
         if (!is_perm(perm_c, n)) jo_fail("C06|perm_c-not-bijection", "perm_c is not a permutation");
-        else if (cint(c, "zerocol", -1) >= 0) {
+        else if (cint(c, "zerocols", 0) > 0 && gen_nzerocols > 0) {
+            long want = n + 1; for (int q = 0; q < gen_nzerocols; ++q) if (perm_c[gen_zerocols[q]] + 1 < want) want = perm_c[gen_zerocols[q]] + 1;
+            jo_int("first_deficient", want);
+            if (want != info) jo_fail("C06|wrong-index", "info = %ld but the first of the %d all-zero columns sits at position %ld of A*Pc", (long)info, gen_nzerocols, want);
+        } else if (cint(c, "zerocol", -1) >= 0) {
             long want = perm_c[cint(c, "zerocol", 0)] + 1;
             jo_int("first_deficient", want);
             if (want != info) jo_fail("C06|wrong-index", "info = %ld but the all-zero column sits at position %ld of A*Pc", (long)info, want);
